@@ -10,6 +10,7 @@ import (
 
 // Scenario is one closed concurrent harness (schedx).
 type Scenario struct {
+	MapDesc bool // iterate the library's string-keyed maps in descending key order
 	Name    string
 	Setup   func(s *harness.SchedWorld)
 	Threads []func(s *harness.SchedWorld)
@@ -22,6 +23,7 @@ func (sc *Scenario) Exec() explore.Exec {
 		var res harness.ExecResult
 		rootsBefore := 0
 		res = harness.RunExec(c, true, 0, func() {
+			harness.SetMapOrderDesc(sc.MapDesc)
 			s.Open()
 			sc.Setup(s)
 			if len(s.Viols) > 0 {
